@@ -65,7 +65,8 @@ func (idk *IdKeeper) update(bndl *bpv7.Bundle) {
 func (idk *IdKeeper) clean() {
 	idk.mutex.Lock()
 
-	var threshold = bpv7.DtnTimeNow() - 60*60*24
+	// DtnTime counts milliseconds: entries older than 24 hours are removed.
+	var threshold = bpv7.DtnTimeNow() - 1000*60*60*24
 
 	for tpl := range idk.data {
 		if tpl.time < threshold && tpl.time != bpv7.DtnTimeEpoch {
